@@ -24,6 +24,9 @@ def generate(rng, tier):
     for regime in ("K0", "K4", "K1"):
         for _ in range(5000 if tier == "thorough" else 600):
             labels = LABELS[: rng.randrange(1, 5)]
+            if rng.random() < 0.2:
+                # different labels that print alike (a number and its spelling)
+                labels = rng.choice([[0, "0"], [1, "1", "a"], [0, "0", 1, "1"], [10, "10", 2]])
             recs = rand_records(rng, regime, nseg=rng.choice([1, 2, 4, 6]), span=12, labels=labels,
                                 tracks=["x", "y", 0, 1, "A", "_"], allow_empty=0.0)
             seen, out = set(), []
